@@ -292,7 +292,8 @@ class Mutate(Unit):
         ex.callee_contracts["simfile._private.serializable.Serializable.__str__"] = str_contract
         ex.callee_contracts["simfile._private.nativeosfs.NativeOSFS.open"] = FS.native_open_contract
         fn = ex.closure_of(Q + "mutate")
-        kw = {"strict": strict, "filesystem": fs}
+        encs = ex.sym(TSeq(STR), "try_encodings")
+        kw = {"strict": strict, "filesystem": fs, "try_encodings": encs}
         if outn is not None:
             kw["output_filename"] = outn
         if bak is not None:
@@ -319,8 +320,9 @@ class Mutate(Unit):
         ex.prove("post:no-clash", z3.Not(clash), "the block was entered although the backup name clashes")
         a, k = ex.ghost["owde_args"]
         ex.prove("call-pre:open_with_detected_encoding",
-                 z3.And(term(a[0], STR) == inp.t, ex._z(ex.eq(k.get("strict"), strict)), z3.BoolVal(k.get("filesystem") is fs)),
-                 "the input file is opened with the caller's strict flag and file system")
+                 z3.And(term(a[0], STR) == inp.t, ex._z(ex.eq(k.get("strict"), strict)), z3.BoolVal(k.get("filesystem") is fs),
+                        z3.BoolVal(is_sym(k.get("try_encodings"))) if not is_sym(k.get("try_encodings")) else k.get("try_encodings").t == encs.t),
+                 "the input file is opened with the caller's list of encodings, strict flag and file system")
         entry_ser, exit_ser = ex.ghost["entry_ser"], ex.ghost["exit_ser"]
         if self.block == BlockOutcome.RAISE:
             ok = kind == "raise" and r.cls is ex.ghost["block_exc"] and r.tag == "block"
